@@ -295,7 +295,9 @@ impl Xot {
     /// assert!(xot.is_removed(text));
     /// ```
     pub fn is_removed(&self, node: Node) -> bool {
-        self.arena()[node.get()].is_removed()
+        // compare the handle's stamp with the slot's: the slot of a removed
+        // node can be reused by a node that is created later
+        node.get().is_removed(self.arena())
     }
 
     /// Get parent node.
